@@ -399,14 +399,7 @@ class Layout:
                     root = base
         if not isinstance(root, ast.Name):
             return None
-        tuples = []
-        for c in walk_shallow(self.S.f.node):
-            if isinstance(c, ast.Call) and isinstance(c.func, ast.Attribute) and c.func.attr == "append":
-                tgt = c.func.value
-                if isinstance(tgt, ast.Subscript) and isinstance(tgt.value, ast.Name) and tgt.value.id == root.id:
-                    if not (c.args and isinstance(c.args[0], ast.Tuple)):
-                        raise AnalysisError(f"C12: {self.S.f.qual}: `{norm(c)}` appends a non-tuple to `{root.id}` (unrecognised form)")
-                    tuples.append(c.args[0])
+        tuples = group_tuples(self.S, root.id)
         if not tuples:
             return None
         res = None
@@ -420,18 +413,199 @@ class Layout:
         return res
 
 
-def guard_equalities(node: ast.AST, stop: ast.AST) -> List[Tuple[ast.AST, ast.AST]]:
-    """(a, b) of every `if a == b` test that encloses `node` (true branch) below `stop`."""
+def _is_empty_list(e: ast.AST) -> bool:
+    return (isinstance(e, (ast.List, ast.Tuple)) and not e.elts) or \
+        (isinstance(e, ast.Call) and call_name(e) == "list" and not e.args and not e.keywords)
+
+
+def _list_elements(S: Scope, e: ast.AST, depth=0) -> Optional[List[ast.AST]]:
+    """Element expressions of a list-valued expression built from literals / comprehensions / concatenation
+    (through single-definition names); None when the form is not recognised."""
+    if depth > 6:
+        return None
+    e = S.single_value(e)
+    if _is_empty_list(e):
+        return []
+    if isinstance(e, (ast.List, ast.Tuple)) and not any(isinstance(x, ast.Starred) for x in e.elts):
+        return list(e.elts)
+    if isinstance(e, (ast.ListComp, ast.GeneratorExp)):
+        return [e.elt]
+    if isinstance(e, ast.Call) and isinstance(e.func, ast.Name) and e.func.id in ("list", "tuple", "sorted") and len(e.args) == 1:
+        return _list_elements(S, e.args[0], depth + 1)
+    if isinstance(e, ast.BinOp) and isinstance(e.op, ast.Add):
+        l, r = _list_elements(S, e.left, depth + 1), _list_elements(S, e.right, depth + 1)
+        return None if l is None or r is None else l + r
+    return None
+
+
+def group_tuples(S: Scope, root: str) -> List[ast.Tuple]:
+    """`root` is a local dict of lists (the delay groups).  Every tuple expression that is put into one of its lists:
+    `root[k].append(T)`, `root.setdefault(k, []).append(T)`, `lst = root[k] / root.setdefault(k, []) ... lst.append(T)`,
+    `lst = []; root[k] = lst`, `root[k] = [T ...]`, `root[k] += [T]`, `.extend([T])`, `root = {k: [T for ..] for ..}`.
+    Raises AnalysisError for a write into the groups whose elements cannot be enumerated."""
+    f = S.f
+
+    def is_root(e):
+        return isinstance(e, ast.Name) and e.id == root
+
+    def member_expr(e) -> Optional[List[ast.AST]]:
+        """`e` denotes one of root's lists -> elements contributed by the expression itself (setdefault default); else None"""
+        if isinstance(e, ast.Subscript) and is_root(e.value):
+            return []
+        if isinstance(e, ast.Call) and isinstance(e.func, ast.Attribute) and is_root(e.func.value) and e.func.attr in ("setdefault", "get"):
+            if len(e.args) >= 2:
+                els = _list_elements(S, e.args[1])
+                if els is None:
+                    raise AnalysisError(f"C12: {f.qual}: default of `{norm(e)}` is not a list literal (unrecognised form)")
+                return els
+            return []
+        return None
+
+    # names stored into the dict as a whole list: root[k] = lst
+    stored_names = {st.value.id for st in walk_shallow(f.node)
+                    if isinstance(st, ast.Assign) and isinstance(st.value, ast.Name)
+                    and any(isinstance(t, ast.Subscript) and is_root(t.value) for t in st.targets)}
+
+    def alias(n: ast.AST) -> Optional[List[ast.AST]]:
+        """Name `n` denotes one of root's lists at this point -> elements contributed by its definitions; else None"""
+        if not isinstance(n, ast.Name):
+            return None
+        bs = S.binds(n)
+        if not bs:
+            return None
+        els: List[ast.AST] = []
+        for b in bs:
+            if b.kind == "value" and not b.path and b.expr is not None:
+                m = member_expr(b.expr)
+                if m is not None:
+                    els += m
+                    continue
+                if n.id in stored_names:
+                    le = _list_elements(S, b.expr)
+                    if le is not None:
+                        els += le
+                        continue
+                return None
+            if b.kind == "iter":
+                role, base, rest = element_origin(b.expr, b.path)
+                if role == "value" and not rest and is_root(base):
+                    continue
+                return None
+            if b.kind == "aug":          # `lst += [T]`: the statement itself is collected separately
+                continue
+            return None
+        return els
+
+    def target_list(e) -> Optional[List[ast.AST]]:
+        m = member_expr(e)
+        return m if m is not None else alias(e)
+
+    elems: List[Tuple[ast.AST, ast.AST]] = []      # (element expression, statement/call it was found in)
+    seen_defaults = set()
+
+    def add(els, where):
+        for x in els:
+            if id(x) not in seen_defaults:
+                seen_defaults.add(id(x))
+                elems.append((x, where))
+    for n in walk_shallow(f.node):
+        if isinstance(n, ast.Call) and isinstance(n.func, ast.Attribute) and n.func.attr in ("append", "extend", "insert"):
+            tl = target_list(n.func.value)
+            if tl is None:
+                continue
+            add(tl, n)
+            if n.func.attr == "append" and len(n.args) == 1:
+                add([n.args[0]], n)
+            elif n.func.attr == "insert" and len(n.args) == 2:
+                add([n.args[1]], n)
+            elif n.func.attr == "extend" and len(n.args) == 1 and _list_elements(S, n.args[0]) is not None:
+                add(_list_elements(S, n.args[0]), n)
+            else:
+                raise AnalysisError(f"C12: {f.qual}: `{norm(n)}` grows a list of `{root}` in an unrecognised way")
+        elif isinstance(n, ast.AugAssign):
+            tl = target_list(n.target)
+            if tl is None:
+                continue
+            le = _list_elements(S, n.value) if isinstance(n.op, ast.Add) else None
+            if le is None:
+                raise AnalysisError(f"C12: {f.qual}: `{norm(n)}` grows a list of `{root}` in an unrecognised way")
+            add(tl + le, n)
+        elif isinstance(n, ast.Assign):
+            if any(isinstance(t, ast.Subscript) and is_root(t.value) for t in n.targets):
+                le = _list_elements(S, n.value)
+                if le is None and isinstance(n.value, ast.Name):
+                    a = alias(n.value)      # root[k] = lst  (lst collected elsewhere / itself a list of root)
+                    le = a
+                if le is None:
+                    raise AnalysisError(f"C12: {f.qual}: `{norm(n)}` stores a list into `{root}` whose elements cannot be enumerated "
+                                        f"(unrecognised form)")
+                add(le, n)
+            elif any(is_root(t) for t in n.targets):
+                v = n.value
+                if isinstance(v, ast.DictComp):
+                    le = _list_elements(S, v.value)
+                    if le is None:
+                        raise AnalysisError(f"C12: {f.qual}: `{norm(n)}` builds `{root}` from lists whose elements cannot be enumerated")
+                    add(le, n)
+                elif isinstance(v, ast.Dict) and v.keys:
+                    for vv in v.values:
+                        le = _list_elements(S, vv)
+                        if le is None:
+                            raise AnalysisError(f"C12: {f.qual}: `{norm(n)}` builds `{root}` from lists whose elements cannot be enumerated")
+                        add(le, n)
     out = []
-    child = node
+    for x, where in elems:
+        t = S.single_value(x)
+        if not isinstance(t, ast.Tuple):
+            raise AnalysisError(f"C12: {f.qual}: `{norm(where)}` puts a non-tuple into a list of `{root}` (unrecognised form)")
+        out.append(t)
+    return out
+
+
+def guard_equalities(node: ast.AST, stop: ast.AST) -> List[Tuple[ast.AST, ast.AST]]:
+    """(a, b) of every `if a == b` test that encloses `node` (true branch / comprehension filter / conditional expression)
+    below `stop`."""
+    out = []
+
+    def eqs(t, positive=True):
+        if isinstance(t, ast.UnaryOp) and isinstance(t.op, ast.Not):
+            return eqs(t.operand, not positive)
+        if isinstance(t, ast.BoolOp) and isinstance(t.op, ast.And) and positive:
+            for v in t.values:
+                eqs(v, True)
+            return
+        if isinstance(t, ast.Compare) and len(t.ops) == 1 and isinstance(t.ops[0], ast.Eq if positive else ast.NotEq):
+            out.append((t.left, t.comparators[0]))
+    prev = node
     for a in ancestors(node):
         if a is stop:
             break
-        if isinstance(a, ast.If) and any(contains(b, node) for b in a.body):
-            t = a.test
-            if isinstance(t, ast.Compare) and len(t.ops) == 1 and isinstance(t.ops[0], ast.Eq):
-                out.append((t.left, t.comparators[0]))
-        child = a
+        if isinstance(a, ast.If):
+            if any(b is prev or contains(b, node) for b in a.body):
+                eqs(a.test, True)
+            elif any(b is prev or contains(b, node) for b in a.orelse):
+                eqs(a.test, False)
+        elif isinstance(a, ast.IfExp):
+            if a.body is prev or contains(a.body, node):
+                eqs(a.test, True)
+            elif a.orelse is prev or contains(a.orelse, node):
+                eqs(a.test, False)
+        elif isinstance(a, _COMPS):
+            for g in a.generators:
+                for c in g.ifs:
+                    if not contains(c, node):
+                        eqs(c, True)
+        prev = a
+    # `for k, v in M.items(): if k != X: continue; ...T...`: a preceding sibling guard that skips the iteration
+    for a in ancestors(node):
+        if a is stop:
+            break
+        if isinstance(a, (ast.For, ast.While)):
+            for st in a.body:
+                if contains(st, node) or st is node:
+                    break
+                if isinstance(st, ast.If) and not st.orelse and st.body and isinstance(st.body[-1], ast.Continue):
+                    eqs(st.test, False)
     return out
 
 
@@ -631,6 +805,46 @@ def check_full_counter(ctx, S: Scope, lay: Layout, c: Counter, sink: ast.AST, el
     return probs, facts
 
 
+def foreign_index_reason(S: Scope, lay: Layout, e: ast.AST, depth=0) -> Optional[str]:
+    """A positive reason why `e` is NOT a position read from the state layout (an enumerate counter, a literal, a length, a
+    counter advanced by hand, arithmetic on those); None when the provenance of `e` is simply not understood."""
+    if depth > 8:
+        return None
+    if isinstance(e, ast.Constant) and isinstance(e.value, int):
+        return f"the literal {e.value}"
+    if isinstance(e, ast.Call) and isinstance(e.func, ast.Name) and e.func.id == "len":
+        return f"a length (`{ast.unparse(e)}`)"
+    if isinstance(e, ast.BinOp):
+        for side in (e.left, e.right):
+            if lay.value(side) is None:
+                r = foreign_index_reason(S, lay, side, depth + 1)
+                if r and not isinstance(side, ast.Constant):
+                    return r
+        return None
+    if isinstance(e, ast.Subscript) and isinstance(e.slice, ast.Constant) and e.slice.value == 0:
+        return foreign_index_reason(S, lay, e.value, depth + 1)
+    if isinstance(e, ast.IfExp):
+        return foreign_index_reason(S, lay, e.body, depth + 1) or foreign_index_reason(S, lay, e.orelse, depth + 1)
+    if isinstance(e, ast.Name):
+        if counter_of(S, e) is not None:
+            return f"the hand-advanced counter `{e.id}`"
+        for b in S.binds(e):
+            if b.kind == "iter":
+                role, base, rest = element_origin(b.expr, b.path)
+                if role == "index":
+                    return f"the enumerate position `{e.id}` inside `{ast.unparse(base.args[0])}`"
+                it = strip_wrappers(b.expr)
+                if isinstance(it, ast.Call) and isinstance(it.func, ast.Name) and it.func.id == "range":
+                    return f"the range counter `{e.id}`"
+                if role == "key" and lay.is_map(base):
+                    return f"a key (not a value) of the state layout `{ast.unparse(base)}`"
+            elif b.kind == "value" and not b.path and b.expr is not None and lay.value(b.expr) is None:
+                r = foreign_index_reason(S, lay, b.expr, depth + 1)
+                if r:
+                    return r
+    return None
+
+
 def _same_binder_pair(S: Scope, a: ast.AST, b: ast.AST):
     """If names a and b are bound by one and the same for/comprehension: ((role_a, base_a, rest_a), (role_b, base_b, rest_b))."""
     if not (isinstance(a, ast.Name) and isinstance(b, ast.Name)):
@@ -707,9 +921,31 @@ def r1_index_provenance(ctx, rid):
             c = counter_of(S, krow) if isinstance(krow, ast.Name) else None
             label = f"row of {norm(es.stmt)}"
             if c is None:
-                ctx.violation(rid, f, es.stmt, f"row index `{ast.unparse(krow)}` of a Jacobian entry is not a counter over the full state "
-                                               f"list: the derivative of `{ast.unparse(fexpr)}` is written to a row that is not the position "
-                                               f"of that equation in y", label=label)
+                lvr = lay.value(krow)
+                why = foreign_index_reason(S, lay, krow) if lvr is None else None
+                if lvr is not None:
+                    # the row is read from the layout: it must be the entry of the symbol that is zipped with the function
+                    key = lvr.get("key")
+                    pair = _same_binder_pair(S, key, fexpr) if key is not None else None
+                    roles = full_iter(ctx, S, S.binds(fexpr)[0].expr) if pair is not None else None
+                    if pair is not None and roles is not None and _loop_elem_role(S, S.binds(fexpr)[0].node, roles, key) == "sym" \
+                            and _loop_elem_role(S, S.binds(fexpr)[0].node, roles, fexpr) == "f":
+                        ctx.ok(rid, f, es.stmt, f"row `{ast.unparse(krow)}` is the layout entry of the state symbol that is paired with "
+                                                f"`{ast.unparse(fexpr)}` in the full state list", label=label)
+                    elif pair is not None:
+                        ctx.violation(rid, f, es.stmt, f"row `{ast.unparse(krow)}` is the layout entry of `{ast.unparse(key)}`, which is "
+                                                       f"not the state symbol of the differentiated equation `{ast.unparse(fexpr)}`",
+                                      label=label)
+                    else:
+                        raise AnalysisError(f"{rid}: {f.qual}: row `{ast.unparse(krow)}` of `{norm(es.stmt)}` is read from the layout in "
+                                            f"an unrecognised way")
+                elif why is not None:
+                    ctx.violation(rid, f, es.stmt, f"row index `{ast.unparse(krow)}` of a Jacobian entry is {why}, not a counter over the "
+                                                   f"full state list: the derivative of `{ast.unparse(fexpr)}` is written to a row that is "
+                                                   f"not the position of that equation in y", label=label)
+                else:
+                    raise AnalysisError(f"{rid}: {f.qual}: cannot determine where the row index `{ast.unparse(krow)}` of "
+                                        f"`{norm(es.stmt)}` comes from (unrecognised form)")
             else:
                 probs, facts = check_full_counter(ctx, S, lay, c, es.stmt, fexpr, "f")
                 if probs:
@@ -744,8 +980,12 @@ def r1_index_provenance(ctx, rid):
                     ctx.ok(rid, f, es.stmt, f"parameter column `{ast.unparse(kcol)}` is the name bound together with the symbol "
                                             f"`{ast.unparse(sexpr)}` (slot numbers: C18)", {"table": ast.unparse(pair[0][1])}, label=label)
                 else:
-                    ctx.violation(rid, f, es.stmt, f"column index `{ast.unparse(kcol)}` of `{norm(es.stmt)}` is neither read from the state "
-                                                   f"layout nor a counter over the full state list nor the name paired with "
+                    why = foreign_index_reason(S, lay, kcol)
+                    if why is None:
+                        raise AnalysisError(f"{rid}: {f.qual}: cannot determine where the column index `{ast.unparse(kcol)}` of "
+                                            f"`{norm(es.stmt)}` comes from (unrecognised form)")
+                    ctx.violation(rid, f, es.stmt, f"column index `{ast.unparse(kcol)}` of `{norm(es.stmt)}` is {why}: neither read from "
+                                                   f"the state layout nor a counter over the full state list nor the name paired with "
                                                    f"`{ast.unparse(sexpr)}`", label=label)
     ctx.require(n_stores >= 4, f"{rid}: expected 4 entry stores (J0, J_hist, dfdu, dfdp), found {n_stores}")
     _r1_emitters(ctx, rid)
@@ -919,12 +1159,46 @@ def layout_loops(ctx) -> List[LayoutLoop]:
     return out
 
 
+LAYOUT_CONSUMERS = ("to_func", "get_jacobian_func", "_compute_symbolic_jacobian")
+
+
+def consumer_layout_loop(ctx, f, lls: List[LayoutLoop], depth=3):
+    """The state-layout loop that function `f` executes: its own, or the one of a (private helper) method of the graph class it
+    calls, followed through the call graph.  -> (LayoutLoop, node in f that stands for it) or None."""
+    own = [ll for ll in lls if ll.f is f]
+    if len(own) == 1:
+        return own[0], own[0].loop
+    if len(own) > 1:
+        raise AnalysisError(f"C12-R2: {f.qual}: {len(own)} state-layout loops in one function (unrecognised form)")
+    if depth <= 0:
+        return None
+    gcls = graph_cls(ctx)
+    hits = []
+    for c in walk_shallow(f.node):
+        if not isinstance(c, ast.Call):
+            continue
+        if not (isinstance(c.func, ast.Attribute) and isinstance(c.func.value, ast.Name) and c.func.value.id == (f.self_name or "")):
+            continue
+        targets, how = ctx.cg.resolve_call(f, c)
+        for g in targets:
+            if g is f or g.cls is None or g.cls not in gcls.mro and gcls not in g.cls.mro:
+                continue
+            if g.qualname.split(".")[-1] in LAYOUT_CONSUMERS:
+                continue        # another consumer: judged on its own
+            r = consumer_layout_loop(ctx, g, lls, depth - 1)
+            if r is not None and all(r[0] is not h[0] for h in hits):
+                hits.append((r[0], c))
+    if len(hits) > 1:
+        raise AnalysisError(f"C12-R2: {f.qual}: reaches {len(hits)} different state-layout loops through helpers (unrecognised form)")
+    return hits[0] if hits else None
+
+
 def r2_layout_loops(ctx, rid):
     lls = layout_loops(ctx)
     names = sorted(ll.f.qualname for ll in lls)
-    ctx.require(len(lls) >= 3, f"{rid}: expected the layout loop in to_func, get_jacobian_func and _compute_symbolic_jacobian, found {names}")
     C0, N = sp.Symbol("C0"), sp.Symbol("N", positive=True, integer=True)
     nfs = {}
+    probs_of = {}
     for ll in lls:
         probs = []
         nf = []
@@ -945,28 +1219,51 @@ def r2_layout_loops(ctx, rid):
                     probs.append(f"on the path `{p['cond']}` a single position {lo} is stored but `{ll.counter}` ends at {fin}")
             nf.append((p["cond"], str(sp.simplify(lo - C0)), None if hi is None else str(sp.simplify(hi - C0)), str(sp.simplify(fin - C0))))
         nfs[ll] = sorted(nf, key=str)
-        facts = {"paths": [{"cond": a, "lo": b, "hi": c, "counter_after": d} for a, b, c, d in nfs[ll]], "map": ll.map_text}
+        probs_of[ll] = probs
+    consumers = []
+    for name in LAYOUT_CONSUMERS:
+        f = cg_func(ctx, name)
+        r = consumer_layout_loop(ctx, f, lls)
+        ctx.require(r is not None, f"{rid}: no state-layout loop found in {f.qualname} or in a helper method it calls "
+                                   f"(layout loops found in: {names})")
+        consumers.append((f, r[0], r[1]))
+    for f, ll, at in consumers:
+        probs = probs_of[ll]
+        where = "" if ll.f is f else f" (in its helper {ll.f.qualname})"
+        facts = {"paths": [{"cond": a, "lo": b, "hi": c, "counter_after": d} for a, b, c, d in nfs[ll]], "map": ll.map_text,
+                 "loop_in": ll.f.qualname}
         if probs:
-            ctx.violation(rid, ll.f, ll.loop, f"state-layout loop of {ll.f.qualname} does not advance `{ll.counter}` by exactly the extent it "
-                                              f"stored: " + "; ".join(probs), facts, label="layout loop advances by stored extent")
+            ctx.violation(rid, f, at, f"state-layout loop of {f.qualname}{where} does not advance `{ll.counter}` by exactly the extent it "
+                                      f"stored: " + "; ".join(probs), facts, label="layout loop advances by stored extent")
         else:
-            ctx.ok(rid, ll.f, ll.loop, "every path stores an extent starting at the counter and advances the counter to its end", facts,
+            ctx.ok(rid, f, at, f"every path stores an extent starting at the counter and advances the counter to its end{where}", facts,
                    label="layout loop advances by stored extent")
-    # sibling equality: majority normal form is the reference (to_func defines the layout of f)
-    ref_ll = [ll for ll in lls if ll.f.qualname.endswith(".to_func")]
-    ctx.require(ref_ll, f"{rid}: layout loop of to_func not found")
-    ref = nfs[ref_ll[0]]
-    for ll in lls:
-        if ll is ref_ll[0]:
-            continue
+    # sibling equality: to_func defines the layout of the vector field
+    ref_f, ref_ll, _ = consumers[0]
+    ref = nfs[ref_ll]
+    for f, ll, at in consumers[1:]:
         facts = {"this": nfs[ll], "to_func": ref}
-        if nfs[ll] == ref:
-            ctx.ok(rid, ll.f, ll.loop, "layout loop equals the one of to_func after normalisation (same branches, same extents)", facts,
+        if ll is ref_ll:
+            ctx.ok(rid, f, at, f"{f.qualname} runs the very layout loop of to_func (shared helper {ll.f.qualname})", facts,
+                   label="layout loop equals to_func's")
+        elif nfs[ll] == ref:
+            ctx.ok(rid, f, at, "layout loop equals the one of to_func after normalisation (same branches, same extents)", facts,
                    label="layout loop equals to_func's")
         else:
-            ctx.violation(rid, ll.f, ll.loop, f"the state-layout loop of {ll.f.qualname} differs from the one of to_func after normalisation: "
-                                              f"the Jacobian would use another ordering/extent of y than the vector field", facts,
+            ctx.violation(rid, f, at, f"the state-layout loop of {f.qualname} differs from the one of to_func after normalisation: "
+                                      f"the Jacobian would use another ordering/extent of y than the vector field", facts,
                           label="layout loop equals to_func's")
+    # any further copy of the layout loop (not reached from the three consumers) must agree as well
+    for ll in lls:
+        if all(ll is not c[1] for c in consumers):
+            facts = {"this": nfs[ll], "to_func": ref}
+            if probs_of[ll] or nfs[ll] != ref:
+                ctx.violation(rid, ll.f, ll.loop, f"the state-layout loop of {ll.f.qualname} differs from the one of to_func or does not "
+                                                  f"advance by the stored extent: " + "; ".join(probs_of[ll]), facts,
+                              label="layout loop equals to_func's")
+            else:
+                ctx.ok(rid, ll.f, ll.loop, "further copy of the layout loop equals the one of to_func", facts,
+                       label="layout loop equals to_func's")
     # the per-DE lists of _get_symbolic_rhs
     roles = symbolic_rhs_roles(ctx)
     g = cg_func(ctx, "_get_symbolic_rhs")
@@ -1363,8 +1660,12 @@ def _r1_text_indices(ctx, rid):
             ctx.ok(rid, s["f"], st, f"the {s['what']} subscript `{ast.unparse(k)}` is a value of the state layout "
                                     f"`{ast.unparse(lv['map'])}`", label=label)
         else:
-            ctx.violation(rid, s["f"], st, f"the {s['what']} subscript `{ast.unparse(k)}` in `{s['text']}` is not read from the state "
-                                           f"layout: the emitted derivative reads another component of y", label=label)
+            why = foreign_index_reason(s["S"], s["lay"], k)
+            if why is None:
+                raise AnalysisError(f"{rid}: {s['f'].qual}: cannot determine where the {s['what']} subscript `{ast.unparse(k)}` in "
+                                    f"`{s['text']}` comes from (unrecognised form)")
+            ctx.violation(rid, s["f"], st, f"the {s['what']} subscript `{ast.unparse(k)}` in `{s['text']}` is {why}, not read from the "
+                                           f"state layout: the emitted derivative reads another component of y", label=label)
 
 
 def _r5_text_indices(ctx, rid):
